@@ -9,6 +9,7 @@
   generated case (translation validation), not proved.
 -/
 import GqlVerif.Gql.Exec
+import GqlVerif.Proofs.C07Taint
 namespace GqlVerif.Props.C07
 open GqlVerif GqlVerif.Exec
 
@@ -162,5 +163,34 @@ mutual
           simp only [nulledKvs, Bool.and_eq_true, beq_iff_eq] at h1 h2 ⊢
           exact ⟨⟨h1.1.1.trans h2.1.1, nulled_trans x y z h1.1.2 h2.1.2⟩, nulledKvs_trans xs ys zs h1.2 h2.2⟩
 end
+
+/-! ## Tainted objects (model: GqlVerif.Misc.Taint)
+
+  After a subgraph answered an entity with an error for a nullable `@requires` input, the loader marks that entity; a later
+  fetch must not build a representation from an item that is or contains a marked entity
+  (`taintedObjects.filterOutTainted`, with `ValidateRequiredExternalFields`). -/
+section Taint
+open GqlVerif.Misc.Taint
+
+/-- an item is dropped exactly when it is or contains a marked object (for values nested at most 100 levels deep,
+    the traversal limit of the implementation) -/
+theorem item_dropped_iff_it_contains_a_tainted_object (t : T) (h : height t ≤ maxDepth + 1) :
+    isTainted 0 t = hasMark t := dropped_iff_contains_marked t h
+
+/-- what remains is exactly the items without a marked object, in their original order -/
+theorem remaining_items_are_the_untainted_ones (items : List T) (h : ∀ t ∈ items, height t ≤ maxDepth + 1) :
+    filterOut items = items.filter (fun t => !hasMark t) := filterOut_spec items h
+
+/-- at any depth, an item is never dropped without containing a marked object -/
+theorem no_item_dropped_without_cause (t : T) (d : Nat) (h : isTainted d t = true) : hasMark t = true :=
+  isTainted_sound t d h
+
+/-! Non-vacuity; and why the verdict has to latch: an entity nested as the first of two values is found, the variant that
+    keeps only the last value's verdict loses it. -/
+def nestedEx : T := .node false (.cons (.node true .nil) (.cons (.leaf false) .nil))
+example : isTainted 0 nestedEx = true ∧ hasMark nestedEx = true ∧ height nestedEx ≤ maxDepth + 1 := by decide
+example : isTaintedLast 0 nestedEx = false := by decide
+example : (filterOut [nestedEx, .node false (.cons (.leaf false) .nil)]).length = 1 := by decide
+end Taint
 
 end GqlVerif.Props.C07
